@@ -39,13 +39,17 @@ theorem Step.foldM_mem {σ α β} {R : Rel σ} {f : β → α → M σ β} {l : 
     exact Step.bind' (hf b x List.mem_cons_self) (fun b' => ih (fun b a ha => hf b a (List.mem_cons_of_mem _ ha)))
 
 /-- the primitive table operations as the block at height `h` uses them -/
-structure PrimsOK (P : Params) (h : Nat) (R : Rel DB) (Auth : Addr → Prop := fun _ => True) : Prop where
+structure PrimsOK (P : Params) (h : Nat) (R : Rel DB) (Auth : Addr → Prop := fun _ => True)
+    (AuthT : HistTx → Prop := fun _ => True) : Prop where
   addBal : ∀ a t v, Step R (addBal P a t v)
   /-- `SubFromBalance` has to respect `R` only for the addresses the block is entitled to debit -/
   subBal : ∀ a t v, Auth a → Step R (subBal P a t v)
   insertRate : ∀ tok v, Step R (insertRate h tok v)
   insertHistBatch : ∀ r, Step R (insertHistBatch r)
-  insertHistTx : ∀ r, Step R (insertHistTx r)
+  /-- inserting a history row has to respect `R` only for the rows `AuthT` admits (a relation that
+      needs the batch row to be there first takes `AuthT := fun _ => False` and proves the composites
+      that insert both directly: `HistComps`) -/
+  insertHistTx : ∀ r, AuthT r → Step R (insertHistTx r)
   insertLookup : ∀ r, Step R (insertLookup r)
   setExecuted : ∀ hash v, Step R (setExecuted hash v)
   setConvertedAmount : ∀ hash i a, Step R (setConvertedAmount hash i a)
@@ -61,7 +65,7 @@ structure PrimsOK (P : Params) (h : Nat) (R : Rel DB) (Auth : Addr → Prop := f
   touch : Step R (M.guarded (fun _ => none) fun db => { db with avgTouched := true })
 
 section
-variable {P : Params} {h : Nat} {R : Rel DB} {Auth : Addr → Prop} (ok : PrimsOK P h R Auth)
+variable {P : Params} {h : Nat} {R : Rel DB} {Auth : Addr → Prop} {AuthT : HistTx → Prop} (ok : PrimsOK P h R Auth AuthT)
 include ok
 
 /-- bring every primitive fact into the local context (for `apply_assumption`) -/
@@ -123,15 +127,18 @@ theorem nullifyMinted_stepA (c : DB) (ha : Auth P.mintAddr) : Step R (nullifyMin
   have c1 := fun t v => subBal_stepA ok P.mintAddr t v ha
   unfold nullifyMinted; step_tac
 
-theorem insertZeroingCoinbase_step (txid : String) (i hh : Nat) (ts : Int) (payout : Nat) (asset : String) (a : Addr) :
+theorem insertZeroingCoinbase_step (hT : ∀ r, AuthT r) (txid : String) (i hh : Nat) (ts : Int) (payout : Nat) (asset : String) (a : Addr) :
     Step R (insertZeroingCoinbase txid i hh ts payout asset a) := by
   prims ok
+  have p5' := fun r => PrimsOK.insertHistTx ok r (hT r)
   unfold insertZeroingCoinbase; step_tac
 
-theorem nullifyBurnLoop_stepA (c : DB) (hh : Nat) (ts : Int) (a : Addr) (ha : Auth a) (i j : Nat) (ts' : List Ticker) :
+theorem nullifyBurnLoop_stepA (c : DB) (hh : Nat) (ts : Int) (a : Addr) (ha : Auth a)
+    (hz : ∀ txid i hh ts payout asset a, Step R (insertZeroingCoinbase txid i hh ts payout asset a))
+    (i j : Nat) (ts' : List Ticker) :
     Step R (nullifyBurnLoop P c hh ts a i j ts') := by
   have c1 := fun t v => subBal_stepA ok a t v ha
-  have c2 := insertZeroingCoinbase_step ok
+  have c2 := hz
   induction ts' generalizing i j with
   | nil => unfold nullifyBurnLoop; step_tac
   | cons t rest ih =>
@@ -139,9 +146,11 @@ theorem nullifyBurnLoop_stepA (c : DB) (hh : Nat) (ts : Int) (a : Addr) (ha : Au
     step_tac
 
 theorem nullifyBurn_stepA (c : DB) (hh : Nat) (ts : Int)
-    (ha : Auth (if hh < P.act.v202 then P.oldBurnAddr else P.burnAddr)) : Step R (nullifyBurn P c hh ts) := by
+    (ha : Auth (if hh < P.act.v202 then P.oldBurnAddr else P.burnAddr))
+    (hz : ∀ txid i hh ts payout asset a, Step R (insertZeroingCoinbase txid i hh ts payout asset a)) :
+    Step R (nullifyBurn P c hh ts) := by
   unfold nullifyBurn
-  exact nullifyBurnLoop_stepA ok c hh ts _ ha ..
+  exact nullifyBurnLoop_stepA ok c hh ts _ ha hz ..
 
 theorem insertGradeBlock_step (keymr : String) (g : OprGraded) : Step R (insertGradeBlock h keymr g) := by
   prims ok
@@ -152,32 +161,36 @@ theorem insertRates_step (c : DB) (assets : List (String × Nat)) (phase : Phase
   prims ok
   unfold insertRates; step_tac
 
-theorem snapshotPayouts_step (ts : Int) (rates : TMap) (order : List Addr) :
+theorem snapshotPayouts_step (hT : ∀ r, AuthT r) (ts : Int) (rates : TMap) (order : List Addr) :
     Step R (snapshotPayouts P h ts rates order) := by
   prims ok
+  have p5' := fun r => PrimsOK.insertHistTx ok r (hT r)
   unfold snapshotPayouts; step_tac
 
-theorem devPayoutLoop_step (ts : Int) (i j : Nat) (l : List (Addr × Nat)) :
+theorem devPayoutLoop_step (hT : ∀ r, AuthT r) (ts : Int) (i j : Nat) (l : List (Addr × Nat)) :
     Step R (devPayoutLoop P h ts i j l) := by
   prims ok
+  have p5' := fun r => PrimsOK.insertHistTx ok r (hT r)
   induction l generalizing i j with
   | nil => unfold devPayoutLoop; step_tac
   | cons d rest ih =>
     unfold devPayoutLoop
     step_tac
 
-theorem developersPayouts_step (ts : Int) : Step R (developersPayouts P h ts) := by
-  unfold developersPayouts; exact devPayoutLoop_step ok ..
+theorem developersPayouts_step (hT : ∀ r, AuthT r) (ts : Int) : Step R (developersPayouts P h ts) := by
+  unfold developersPayouts; exact devPayoutLoop_step ok hT ..
 
-theorem recordHistory_step (bo : Nat) (e : TxEntry) : Step R (recordHistory P h bo e) := by
+theorem recordHistory_step (hT : ∀ r, AuthT r) (bo : Nat) (e : TxEntry) : Step R (recordHistory P h bo e) := by
   prims ok
+  have p5' := fun r => PrimsOK.insertHistTx ok r (hT r)
   unfold recordHistory; step_tac
 
 theorem applyTxEntry_stepA (keymr : String) (bo : Nat) (e : TxEntry)
-    (ha : e.validAt P h = true → ∀ t ∈ e.txs, Auth t.inAddr) (hlog : ∀ x, Step R (logExec x)) :
+    (ha : e.validAt P h = true → ∀ t ∈ e.txs, Auth t.inAddr) (hlog : ∀ x, Step R (logExec x))
+    (hrec : ∀ bo e, Step R (recordHistory P h bo e)) :
     Step R (applyTxEntry P h keymr bo e) := by
   prims ok
-  have c1 := recordHistory_step ok
+  have c1 := hrec
   unfold applyTxEntry
   apply Step.bind Step.get
   intro db
@@ -191,10 +204,11 @@ theorem applyTxEntry_stepA (keymr : String) (bo : Nat) (e : TxEntry)
   · exact Step.pure _
 
 theorem applyTransactionBlock_stepA (keymr : String) (es : List TxEntry)
-    (ha : ∀ e ∈ es, e.validAt P h = true → ∀ t ∈ e.txs, Auth t.inAddr) (hlog : ∀ x, Step R (logExec x)) :
+    (ha : ∀ e ∈ es, e.validAt P h = true → ∀ t ∈ e.txs, Auth t.inAddr) (hlog : ∀ x, Step R (logExec x))
+    (hrec : ∀ bo e, Step R (recordHistory P h bo e)) :
     Step R (applyTransactionBlock P h keymr es) := by
   unfold applyTransactionBlock
-  exact Step.forEachIdx_mem (fun i e he => applyTxEntry_stepA ok keymr i e (ha e he) hlog)
+  exact Step.forEachIdx_mem (fun i e he => applyTxEntry_stepA ok keymr i e (ha e he) hlog hrec)
 
 theorem applyHeld_stepA (rates avgs : TMap) (e : TxEntry)
     (ha : e.validAt P h = true → ∀ t ∈ e.txs, Auth t.inAddr) (hlog : ∀ x, Step R (logExec x)) :
@@ -232,27 +246,47 @@ theorem applyHolding_stepA (c : DB) (rates avgs : TMap) (fromH : Nat)
     step_tac
   unfold applyHolding; step_tac
 
-theorem applyFct_step (rcd : Addr) (f : FctTx) : Step R (applyFct P h rcd f) := by
+theorem applyFct_step (hT : ∀ r, AuthT r) (rcd : Addr) (f : FctTx) : Step R (applyFct P h rcd f) := by
   prims ok
+  have p5' := fun r => PrimsOK.insertHistTx ok r (hT r)
   unfold applyFct; step_tac
 
-theorem applyFactoidBlock_step (rcd : Addr) (fcts : List FctTx) : Step R (applyFactoidBlock P h rcd fcts) := by
-  have c1 := applyFct_step ok rcd
+theorem applyFactoidBlock_step (hT : ∀ r, AuthT r) (rcd : Addr) (fcts : List FctTx) : Step R (applyFactoidBlock P h rcd fcts) := by
+  have c1 := applyFct_step ok hT rcd
   unfold applyFactoidBlock; step_tac
 
-theorem applyGradedOPR_step (oh ts : Int) (ws : List OprW) : Step R (applyGradedOPR P oh ts ws) := by
+theorem applyGradedOPR_step (hT : ∀ r, AuthT r) (oh ts : Int) (ws : List OprW) : Step R (applyGradedOPR P oh ts ws) := by
   prims ok
+  have p5' := fun r => PrimsOK.insertHistTx ok r (hT r)
   unfold applyGradedOPR; step_tac
 
-theorem applyGradedSPR_step (oh ts : Int) (ws : List SprW) : Step R (applyGradedSPR P oh ts ws) := by
+theorem applyGradedSPR_step (hT : ∀ r, AuthT r) (oh ts : Int) (ws : List SprW) : Step R (applyGradedSPR P oh ts ws) := by
   prims ok
+  have p5' := fun r => PrimsOK.insertHistTx ok r (hT r)
   unfold applyGradedSPR; step_tac
 
 end
 
+/-- the composites that insert a batch row and then transaction rows of the same hash: what the
+    block-level theorems need of them. Derived from the primitives when `AuthT` admits every row
+    (`histComps_of_prims`); proved directly for relations about the two history tables together. -/
+structure HistComps (P : Params) (h : Nat) (R : Rel DB) : Prop where
+  zero : ∀ txid i hh ts payout asset a, Step R (insertZeroingCoinbase txid i hh ts payout asset a)
+  snap : ∀ ts rates order, Step R (snapshotPayouts P h ts rates order)
+  dev : ∀ ts, Step R (developersPayouts P h ts)
+  hist : ∀ bo e, Step R (recordHistory P h bo e)
+  fct : ∀ rcd fcts, Step R (applyFactoidBlock P h rcd fcts)
+  opr : ∀ oh ts ws, Step R (applyGradedOPR P oh ts ws)
+  spr : ∀ oh ts ws, Step R (applyGradedSPR P oh ts ws)
+
+theorem histComps_of_prims {P : Params} {h : Nat} {R : Rel DB} {Auth : Addr → Prop} {AuthT : HistTx → Prop}
+    (ok : PrimsOK P h R Auth AuthT) (hT : ∀ r, AuthT r) : HistComps P h R :=
+  ⟨insertZeroingCoinbase_step ok hT, snapshotPayouts_step ok hT, developersPayouts_step ok hT, recordHistory_step ok hT,
+   applyFactoidBlock_step ok hT, applyGradedOPR_step ok hT, applyGradedSPR_step ok hT⟩
+
 /-! ### the block -/
 
-theorem gradeAndRates_step {P : Params} {R : Rel DB} {Auth : Addr → Prop} (c : DB) (b : Block) (ok : PrimsOK P b.height R Auth) :
+theorem gradeAndRates_step {P : Params} {R : Rel DB} {Auth : Addr → Prop} {AuthT : HistTx → Prop} (c : DB) (b : Block) (ok : PrimsOK P b.height R Auth AuthT) :
     Step R (gradeAndRates P c b) := by
   have c1 := insertGradeBlock_step ok
   have c2 := insertRates_step ok
@@ -264,45 +298,52 @@ theorem gradeAndRates_step {P : Params} {R : Rel DB} {Auth : Addr → Prop} (c :
 structure AuthOK (P : Params) (R : Rel DB) (Auth : Addr → Prop) (c : DB) (b : Block) : Prop where
   /-- the history-variable write of `applyTransactionBatch` respects the relation -/
   log : ∀ x, Step R (logExec x)
+  /-- the composites writing both history tables respect the relation -/
+  comps : HistComps P b.height R
   txs : ∀ es, b.txs = some es → ∀ e ∈ es, e.validAt P b.height = true → ∀ t ∈ e.txs, Auth t.inAddr
   held : ∀ row ∈ c.holding, row.entry.validAt P b.height = true → ∀ t ∈ row.entry.txs, Auth t.inAddr
   mint : b.height = P.act.v204Burn → Auth P.mintAddr
   burn : b.height = P.act.devRewards ∨ b.height = P.act.v202 →
     Auth (if b.height < P.act.v202 then P.oldBurnAddr else P.burnAddr)
 
-theorem authOK_true (P : Params) {R : Rel DB} (hlog : ∀ x, Step R (logExec x)) (c : DB) (b : Block) :
-    AuthOK P R (fun _ => True) c b :=
-  ⟨hlog, fun _ _ _ _ _ _ _ => trivial, fun _ _ _ _ _ => trivial, fun _ => trivial, fun _ => trivial⟩
+theorem authOK_true (P : Params) {R : Rel DB} (hlog : ∀ x, Step R (logExec x)) (c : DB) (b : Block)
+    (hc : HistComps P b.height R) : AuthOK P R (fun _ => True) c b :=
+  ⟨hlog, hc, fun _ _ _ _ _ _ _ => trivial, fun _ _ _ _ _ => trivial, fun _ => trivial, fun _ => trivial⟩
 
 section
-variable {P : Params} {R : Rel DB} {Auth : Addr → Prop} (c : DB) (b : Block) (avgs : TMap)
-  (ok : PrimsOK P b.height R Auth) (au : AuthOK P R Auth c b)
+variable {P : Params} {R : Rel DB} {Auth : Addr → Prop} {AuthT : HistTx → Prop} (c : DB) (b : Block) (avgs : TMap)
+  (ok : PrimsOK P b.height R Auth AuthT) (au : AuthOK P R Auth c b)
 include ok
 
 theorem sprPanicCheck_step : Step R (sprPanicCheck b) := by
   unfold sprPanicCheck; step_tac
 
-theorem snapshotPhase_step : Step R (snapshotPhase P b) := by
-  have c4 := snapshotPayouts_step ok
+omit ok in
+theorem snapshotPhase_stepC (hc : HistComps P b.height R) : Step R (snapshotPhase P b) := by
+  have c4 := hc.snap
   unfold snapshotPhase; step_tac
 
-theorem oprRewardPhase_step : Step R (oprRewardPhase P b) := by
-  have c8 := applyGradedOPR_step ok
+omit ok in
+theorem oprRewardPhase_stepC (hc : HistComps P b.height R) : Step R (oprRewardPhase P b) := by
+  have c8 := hc.opr
   unfold oprRewardPhase; step_tac
 
-theorem sprRewardPhase_step : Step R (sprRewardPhase P b) := by
-  have c9 := applyGradedSPR_step ok
+omit ok in
+theorem sprRewardPhase_stepC (hc : HistComps P b.height R) : Step R (sprRewardPhase P b) := by
+  have c9 := hc.spr
   unfold sprRewardPhase; step_tac
 
-theorem devRewardPhase_step : Step R (devRewardPhase P b) := by
-  have c10 := developersPayouts_step ok
+omit ok in
+theorem devRewardPhase_stepC (hc : HistComps P b.height R) : Step R (devRewardPhase P b) := by
+  have c10 := hc.dev
   unfold devRewardPhase; step_tac
 
-theorem rewardPhase_step : Step R (rewardPhase P b) := by
-  have c7 := applyFactoidBlock_step ok
-  have c1 := oprRewardPhase_step b ok
-  have c2 := sprRewardPhase_step b ok
-  have c3 := devRewardPhase_step b ok
+omit ok in
+theorem rewardPhase_stepC (hc : HistComps P b.height R) : Step R (rewardPhase P b) := by
+  have c7 := hc.fct
+  have c1 := oprRewardPhase_stepC b hc
+  have c2 := sprRewardPhase_stepC b hc
+  have c3 := devRewardPhase_stepC b hc
   unfold rewardPhase; step_tac
 
 include au
@@ -328,11 +369,11 @@ theorem txBlockPhase_stepA : Step R (txBlockPhase P b) := by
   unfold txBlockPhase
   split
   · rename_i es hes
-    exact applyTransactionBlock_stepA ok b.txKeymr es (au.txs es hes) au.log
+    exact applyTransactionBlock_stepA ok b.txKeymr es (au.txs es hes) au.log au.comps.hist
   · exact Step.pure _
 
 theorem txPhase_stepA (ra : Bool) : Step R (txPhase P c b avgs ra) := by
-  have c1 := snapshotPhase_step b ok
+  have c1 := snapshotPhase_stepC b au.comps
   have c2 := holdingPhase_stepA c b avgs ok au
   have c3 := txBlockPhase_stepA c b ok au
   unfold txPhase; step_tac
@@ -342,7 +383,7 @@ theorem syncBlock_stepA : Step R (syncBlock P c b avgs) := by
   have c2 := preAdjust_stepA c b ok au
   have c3 := sprPanicCheck_step (P := P) b ok
   have c4 := txPhase_stepA c b avgs ok au
-  have c5 := rewardPhase_step b ok
+  have c5 := rewardPhase_stepC b au.comps
   unfold syncBlock; step_tac
 
 theorem burnZeroing_stepA : Step R (burnZeroing P c b) := by
@@ -352,14 +393,14 @@ theorem burnZeroing_stepA : Step R (burnZeroing P c b) := by
       else (pure () : LM Unit)) := by
     split
     · rename_i hb
-      have := nullifyBurn_stepA ok c b.height b.ts (au.burn (Or.inr hb))
+      have := nullifyBurn_stepA ok c b.height b.ts (au.burn (Or.inr hb)) au.comps.zero
       step_tac
     · exact Step.pure _
   unfold burnZeroing
   dsimp only
   split
   · rename_i hb
-    have := nullifyBurn_stepA ok c b.height b.ts (au.burn (Or.inl hb))
+    have := nullifyBurn_stepA ok c b.height b.ts (au.burn (Or.inl hb)) au.comps.zero
     exact Step.bind (Step.swallow this) (fun _ => hjp)
   · exact hjp
 
@@ -389,12 +430,13 @@ theorem applyBatch_step (e : TxEntry) (rates avgs : Option TMap) : Step R (apply
   applyBatch_stepA ok e rates avgs (fun _ _ => trivial) hlog
 omit hlog
 theorem nullifyMinted_step (c : DB) : Step R (nullifyMinted P c) := nullifyMinted_stepA ok c trivial
-theorem nullifyBurn_step (c : DB) (hh : Nat) (ts : Int) : Step R (nullifyBurn P c hh ts) := nullifyBurn_stepA ok c hh ts trivial
+theorem nullifyBurn_step (c : DB) (hh : Nat) (ts : Int) : Step R (nullifyBurn P c hh ts) :=
+  nullifyBurn_stepA ok c hh ts trivial (insertZeroingCoinbase_step ok (fun _ => trivial))
 include hlog
 theorem applyTxEntry_step (keymr : String) (bo : Nat) (e : TxEntry) : Step R (applyTxEntry P h keymr bo e) :=
-  applyTxEntry_stepA ok keymr bo e (fun _ _ _ => trivial) hlog
+  applyTxEntry_stepA ok keymr bo e (fun _ _ _ => trivial) hlog (recordHistory_step ok (fun _ => trivial))
 theorem applyTransactionBlock_step (keymr : String) (es : List TxEntry) :
-    Step R (applyTransactionBlock P h keymr es) := applyTransactionBlock_stepA ok keymr es (fun _ _ _ _ _ => trivial) hlog
+    Step R (applyTransactionBlock P h keymr es) := applyTransactionBlock_stepA ok keymr es (fun _ _ _ _ _ => trivial) hlog (recordHistory_step ok (fun _ => trivial))
 theorem applyHeld_step (rates avgs : TMap) (e : TxEntry) : Step R (applyHeld P h rates avgs e) :=
   applyHeld_stepA ok rates avgs e (fun _ _ _ => trivial) hlog
 theorem applyHolding_step (c : DB) (rates avgs : TMap) (fromH : Nat) :
@@ -407,14 +449,26 @@ variable {P : Params} {R : Rel DB} (c : DB) (b : Block) (avgs : TMap) (ok : Prim
   (hlog : ∀ x, Step R (logExec x))
 include ok hlog
 
-theorem preAdjust_step : Step R (preAdjust P c b.height) := preAdjust_stepA c b ok (authOK_true P hlog c b)
-theorem holdingPhase_step (ra : Bool) : Step R (holdingPhase P c b avgs ra) := holdingPhase_stepA c b avgs ok (authOK_true P hlog c b) ra
-theorem txBlockPhase_step : Step R (txBlockPhase P b) := txBlockPhase_stepA ({} : DB) b ok (authOK_true P hlog {} b)
-theorem txPhase_step (ra : Bool) : Step R (txPhase P c b avgs ra) := txPhase_stepA c b avgs ok (authOK_true P hlog c b) ra
-theorem syncBlock_step : Step R (syncBlock P c b avgs) := syncBlock_stepA c b avgs ok (authOK_true P hlog c b)
-theorem burnZeroing_step : Step R (burnZeroing P c b) := burnZeroing_stepA c b ok (authOK_true P hlog c b)
+omit hlog in
+theorem histComps_std : HistComps P b.height R := histComps_of_prims ok (fun _ => trivial)
+omit hlog in
+theorem snapshotPhase_step : Step R (snapshotPhase P b) := snapshotPhase_stepC b (histComps_std b ok)
+omit hlog in
+theorem oprRewardPhase_step : Step R (oprRewardPhase P b) := oprRewardPhase_stepC b (histComps_std b ok)
+omit hlog in
+theorem sprRewardPhase_step : Step R (sprRewardPhase P b) := sprRewardPhase_stepC b (histComps_std b ok)
+omit hlog in
+theorem devRewardPhase_step : Step R (devRewardPhase P b) := devRewardPhase_stepC b (histComps_std b ok)
+omit hlog in
+theorem rewardPhase_step : Step R (rewardPhase P b) := rewardPhase_stepC b (histComps_std b ok)
+theorem preAdjust_step : Step R (preAdjust P c b.height) := preAdjust_stepA c b ok (authOK_true P hlog c b (histComps_std b ok))
+theorem holdingPhase_step (ra : Bool) : Step R (holdingPhase P c b avgs ra) := holdingPhase_stepA c b avgs ok (authOK_true P hlog c b (histComps_std b ok)) ra
+theorem txBlockPhase_step : Step R (txBlockPhase P b) := txBlockPhase_stepA ({} : DB) b ok (authOK_true P hlog {} b (histComps_std b ok))
+theorem txPhase_step (ra : Bool) : Step R (txPhase P c b avgs ra) := txPhase_stepA c b avgs ok (authOK_true P hlog c b (histComps_std b ok)) ra
+theorem syncBlock_step : Step R (syncBlock P c b avgs) := syncBlock_stepA c b avgs ok (authOK_true P hlog c b (histComps_std b ok))
+theorem burnZeroing_step : Step R (burnZeroing P c b) := burnZeroing_stepA c b ok (authOK_true P hlog c b (histComps_std b ok))
 /-- every step of the block transaction respects `R` -/
-theorem blockTx_step : Step R (blockTx P c b avgs) := blockTx_stepA c b avgs ok (authOK_true P hlog c b)
+theorem blockTx_step : Step R (blockTx P c b avgs) := blockTx_stepA c b avgs ok (authOK_true P hlog c b (histComps_std b ok))
 
 end
 
